@@ -12,8 +12,9 @@ open KG KG.Model.Reclaim
 /-- no heartbeat entry of `i`. -/
 def NoHb (i : Inst) (s : State) : Prop := ∀ p ∈ s.hb, p.1 ≠ i
 
-/-- no in-flight state is counted for `i` in any flow control of any store. -/
-def NoState (i : Inst) (s : State) : Prop := ∀ r ∈ s.fcs, ∀ p ∈ r.2.2.states, p.1 ≠ i
+/-- no in-flight state is counted for `i` in any (max-in-flight) flow control of any store; token buckets keep
+    nothing per instance. -/
+def NoState (i : Inst) (s : State) : Prop := ∀ r ∈ s.fcs, r.2.2.isMif = true → ∀ p ∈ r.2.2.states, p.1 ≠ i
 
 /-- no condition (allocated quota) of `i` is left in a shard this server leads. -/
 def NoCondLed (shardOf : Ups → Nat) (i : Inst) (s : State) : Prop :=
